@@ -9,9 +9,13 @@ on the same client (same or other key, same or other callback name), then return
 another exception.  The calls are made by invocations that come from the dispatch of a message; immediate invocations
 (made by a registration with the cached state) and handleError invocations only return or raise.
 
-Generated domain (stated in ASSUMPTIONS of the property module): a callback that is the target of an unregister call
-made from inside a callback never raises UnregisterCallback (in the implementation `cblist.remove` of an absent callback
-raises ValueError and aborts the dispatch: observation in notes/C12.md, outside the model, ReModel.rbad).
+A callback that another callback unregisters during the dispatch and that then raises UnregisterCallback is generated
+since repository commit 4741ef2 (before, `cblist.remove` of the absent callback raised ValueError and the rest of the
+dispatch was lost: finding C12/unregister-then-oneshot-breaks-dispatch).  Generated domain (stated in ASSUMPTIONS of the
+property module): a callback that some callback unregisters from inside is not registered from inside a callback (when
+an inner unregister_callback leaves the dispatched list empty the dict entry is popped and the dispatch holds an
+orphaned list: a re-registered callback raising UnregisterCallback would then stay registered: observation in
+notes/C12.md; the model follows the code there, ReModel orph).
 """
 import json
 import random
@@ -395,18 +399,31 @@ def encode_re(case, obs):
 
 # =================================================================== generators
 def sanitize(case):
-    """generated domain: a callback that some callback unregisters never raises UnregisterCallback"""
+    """generated domain: a callback that some callback unregisters from inside is not registered from inside"""
     targets = set()
     for pr in case['progs'].values():
         for acts, _fin in pr:
             for a in acts:
                 if a[0] == 'unreg':
-                    targets.add(a[3])
-    for cb in targets:
-        pr = case['progs'].get(str(cb))
-        if pr:
-            case['progs'][str(cb)] = [[acts, 'ok' if fin == 'U' else fin] for acts, fin in pr]
+                    targets.add((a[2], a[3]))
+    for cb, pr in list(case['progs'].items()):
+        case['progs'][cb] = [[[a for a in acts if not (a[0] == 'reg' and (a[2], a[3]) in targets)], fin]
+                             for acts, fin in pr]
     return case
+
+
+def unregistered_then_oneshot(case, obs):
+    """the pattern of finding C12/unregister-then-oneshot-breaks-dispatch occurred: a dispatched callback raised
+    UnregisterCallback after a callback of the same message had unregistered it (from its list) by unregister_callback"""
+    removed = set()
+    for x in obs['events']:
+        if x[0] == 'msg':
+            removed = set()
+        elif x[0] == 'unreg' and x[4] == 'act':
+            removed.add((x[1], kj(x[2]), x[3]))
+        elif x[0] == 'inv' and x[2] == 'disp' and x[9] == 'U' and (x[4], kj(x[5]), x[3]) in removed:
+            return True
+    return False
 
 
 def gen_act(rng, near):
@@ -418,7 +435,33 @@ def gen_act(rng, near):
     return ['reg' if rng.random() < 0.65 else 'unreg', key, cbname, cb]
 
 
+def gen_unreg_oneshot_case(rng):
+    """a callback unregisters others (possibly itself, possibly all: the dict entry is popped) on the list being
+    dispatched; the unregistered ones raise UnregisterCallback when they are called from the copy"""
+    key, cbname = rng.choice(KEYS), rng.choice(UPD)
+    ids = rng.sample(range(1, 7), rng.randint(2, 4))
+    ops = [['reg', key, cbname, c] for c in ids]
+    if rng.random() < 0.5:
+        ops.insert(rng.randint(0, len(ops)), ['reg', rng.choice(KEYS), rng.choice(UPD), rng.choice(ids)])
+    if rng.random() < 0.3:
+        ops.append(['reg', None, 'handleError', 7])
+    m = key[0] if isinstance(key, list) else key if isinstance(key, str) else rng.choice(['m', 'dev'])
+    pars = [p for p in PARS if p[0] == m and (not isinstance(key, list) or p == key)]
+    for i in range(rng.randint(1, 3)):
+        mp = rng.choice(pars) if rng.random() < 0.85 else rng.choice(PARS)
+        ops.append(['msg', mp[0], mp[1], i + 1.5])
+    a = rng.choice(ids)
+    victims = [c for c in ids if rng.random() < 0.6] or [rng.choice(ids)]
+    progs = {str(a): [[[['unreg', key, cbname, v] for v in victims], rng.choice(['ok', 'U', 'E'])]]}
+    for v in victims:
+        if v != a:
+            progs[str(v)] = [[[], rng.choice(['U', 'U', 'ok', 'E'])]]
+    return {'kind': 're', 'ops': ops, 'progs': progs}
+
+
 def gen_re_case(rng):
+    if rng.random() < 0.15:
+        return gen_unreg_oneshot_case(rng)
     ops = []
     sites = []
     for _ in range(rng.randint(2, 5)):
